@@ -296,7 +296,7 @@ def make_model_image(shape, model, params_table, *, model_shape=None,
         y0 = getattr(model, y_name).value
 
         if variable_shape:
-            mod_shape = model_shape[i]
+            mod_shape = tuple(model_shape[i])
         elif model_shape is None:
             # the bounding box size generally depends on model parameters,
             # so needs to be calculated for each source
